@@ -18,7 +18,10 @@ THEOREMS = ["CKT.C09." + t for t in ["greedyWrites_id", "step_preserves", "run_p
 RULE = ("target find_cuts requests (integer-kappa circuits, compared exactly with the model; circuits whose cut candidates take the KAK path - rzx, xx+-yy, unitaries, instances of a user-defined gate class that share name and parameters but not their matrix - compared on overhead and on the decomposition attached to every cut gate) evaluated before and after random histories of 2-12 other "
         "calls (other circuits, restricted settings, requests that raise: three-qubit gates, bad settings), after reseeding/advancing numpy's and "
         "Python's global generators, and in a fresh interpreter; exact-weight experiment generation likewise; monitored: fingerprints of the action "
-        "registry, both module-level function tables and the decomposition registry after every call, global RNG states before/after; distinct by payload")
+        "registry, both module-level function tables and the decomposition registry after every call, global RNG states before/after; distinct by payload; "
+        "deterministic families: targets with a binding max_gamma / max_backjumps limit before and after calls with no limit at all (max_gamma = inf, "
+        "1e300, huge max_backjumps), one cut kind only or limits of zero; sessions that hand one DeviceConstraints (and one OptimizationParameters) "
+        "object to every call - circuits narrower than the device, wider ones, then the target - compared with the history-free call on fresh equal objects")
 ASSUMPTIONS = ["Python aliasing and interpreter-level state are outside the Lean model; they are observed by the runtime monitors of this check",
                "the seeded numpy Generator stream is a function of the integer seed (numpy's contract)"]
 LEVEL_TEXT = ("6 Lean 4 theorems over an explicit-global-state model (every call returns the globals it was given, hence outputs are independent of "
@@ -60,8 +63,69 @@ def _big_target(rng):
             "max_gamma": 1024.0, "max_backjumps": 10000, "gate_lo": True, "wire_lo": True, "width": 3, "exact": True}
 
 
+def _cxs(nq, pairs, width, seed, **kw):
+    t = {"nq": nq, "instrs": [{"name": "cx", "qubits": [a, b]} for a, b in pairs], "seed": seed, "max_gamma": 1024.0, "max_backjumps": None,
+         "gate_lo": True, "wire_lo": True, "width": width, "exact": True}
+    t.update(kw)
+    return t
+
+
+def _ladder(n):
+    return [(i, i + 1) for i in range(n - 1)]
+
+
+FAN_IN = [(0, 3), (1, 3), (2, 3), (3, 4)]
+TREE8 = [(0, 1), (0, 2), (0, 3), (0, 4), (5, 6), (6, 7), (4, 5)]
+INF = float("inf")
+
+
+def _limits_family():
+    """deterministic: a target whose max_gamma / max_backjumps limit is *binding* (smaller than what the optimum needs, so the search
+    is cut short and the warm-start solution comes back) evaluated before and after other calls that use the opposite extreme of the
+    same legal settings: no limit at all (max_gamma = inf, 1e300; max_backjumps None / huge), one cut kind only, limits of zero"""
+    sc = [11, 22, 3]
+    fams = [
+        # fan-in: warm start = two gate cuts (81), optimum = one wire cut (16, gamma 4) - out of reach with max_gamma 2.5
+        (_cxs(5, FAN_IN, 3, 3, max_gamma=2.5),
+         [_cxs(5, _ladder(5), 3, 1, max_gamma=INF), _cxs(4, _ladder(4), 2, 2)]),
+        (_cxs(5, FAN_IN, 3, 3, max_gamma=3.5),
+         [_cxs(4, _ladder(4), 2, 5, max_gamma=1e300, gate_lo=False), _cxs(5, FAN_IN, 3, 5, max_gamma=INF, wire_lo=False)]),
+        # a ladder that needs two cuts under a limit that admits one
+        (_cxs(6, _ladder(6) + _ladder(6), 2, 7, max_gamma=8.9),
+         [_cxs(3, _ladder(3), 2, 1, max_gamma=INF, max_backjumps=0), _cxs(5, FAN_IN, 3, 9, max_gamma=1.0)]),
+        # binding backjump limit after searches without one, and the other way round
+        (_cxs(6, [(0, 1), (1, 2), (2, 3), (3, 4), (4, 5), (0, 5), (1, 4)], 3, 2, max_gamma=1e6, max_backjumps=1),
+         [_cxs(5, FAN_IN, 3, 1, max_gamma=INF, max_backjumps=10 ** 9), _cxs(4, _ladder(4), 2, 1, max_backjumps=0)]),
+        (_cxs(5, FAN_IN, 3, 3),
+         [_cxs(5, FAN_IN, 3, 3, max_gamma=2.5), _cxs(5, FAN_IN, 3, 3, max_gamma=INF), _cxs(5, FAN_IN, 3, 3, max_backjumps=0)]),
+    ]
+    for tgt, hist in fams:
+        yield ("history", {"target": tgt, "history": hist, "scramble": list(sc), "fresh": False, "always_oracle": True})
+
+
+def _session_family():
+    """deterministic: one DeviceConstraints object (and optionally one OptimizationParameters object) describes "my device" and is handed
+    to every find_cuts call of a session: circuits narrower than the device (also: declared wide but with few qubits touched), wider
+    ones, then the target; the target's answer must be the one obtained with freshly built, equal objects and no history"""
+    sc = [5, 6, 1]
+    fams = [
+        (_cxs(7, _ladder(7), 5, 4), [_cxs(3, _ladder(3), 5, 3), _cxs(2, [(0, 1)], 5, 2)], ["constraints"]),
+        (_cxs(8, TREE8, 5, 4), [_cxs(8, TREE8, 5, 4), _cxs(6, [(0, 1), (1, 0)], 5, 4), _cxs(4, _ladder(4), 5, 4)], ["constraints", "params"]),
+        (_cxs(5, [(i, (i + 1) % 5) for i in range(5)], 3, 1, gate_lo=False),
+         [_cxs(6, _ladder(6), 3, 8), _cxs(2, [(0, 1), (0, 1)], 3, 0), _cxs(4, [(2, 3)], 3, 1, wire_lo=False)], ["constraints"]),
+        (_cxs(6, _ladder(6) + [(0, 5)], 4, 0, max_backjumps=10000),
+         [_cxs(3, [(0, 2), (2, 1)], 4, 0, max_backjumps=10000), _cxs(6, _ladder(6) + [(0, 5)], 4, 0, max_backjumps=10000),
+          _cxs(1, [], 4, 0, max_backjumps=10000, instrs=[{"name": "h", "qubits": [0]}])], ["constraints", "params"]),
+    ]
+    for tgt, hist, share in fams:
+        yield ("history", {"target": tgt, "history": hist, "session": {"share": share}, "scramble": list(sc), "fresh": False,
+                           "always_oracle": True})
+
+
 def cases(rng, tier):
     N = 36 if tier == "quick" else 300
+    yield from _limits_family()
+    yield from _session_family()
     for _ in range(2 if tier == "quick" else 8):
         yield ("history", {"target": _mixed_target(rng), "history": [cutfind.gen_case(rng, tier) for _ in range(2)],
                            "scramble": [rng.randrange(1 << 30), rng.randrange(1 << 30), rng.randint(0, 50)], "fresh": True, "hashseeds": True,
@@ -143,6 +207,25 @@ def _fresh(target, hashseed=None):
     return {"error": "fresh interpreter failed: " + p.stderr[-200:]}
 
 
+def _diff(x, y):
+    """which observable fields differ (the quoted results are truncated)"""
+    if not (isinstance(x, dict) and isinstance(y, dict) and isinstance(x.get("ok"), dict) and isinstance(y.get("ok"), dict)):
+        return ""
+    ks = [k for k in sorted(set(x["ok"]) | set(y["ok"])) if x["ok"].get(k) != y["ok"].get(k)]
+    return " [differs in: " + ", ".join(f"{k} {json.dumps(x['ok'].get(k))[:60]} vs {json.dumps(y['ok'].get(k))[:60]}" for k in ks if k != "bases") + "]"
+
+
+def _run_with(payload, cons=None, opt=None):
+    """cutfind.run_real with caller-owned constraints / parameters objects (a session re-uses them from call to call)"""
+    from qiskit_addon_cutting import find_cuts, DeviceConstraints
+    if payload.get("special") or payload.get("reuse_constraints"):
+        return cutfind.run_real(payload)
+    qc = cutfind.build(payload)
+    o, width = cutfind._params(payload)
+    out, meta = find_cuts(qc, o if opt is None else opt, DeviceConstraints(width) if cons is None else cons)
+    return {"ok": cutfind.canon_output(qc, out, meta)}
+
+
 def run_real(kind, payload):
     notes = []
     f0 = _fingerprint()
@@ -151,14 +234,22 @@ def run_real(kind, payload):
         a = call_real(lambda p: cutfind.run_real(p), tgt, timeout=300)
         if _fingerprint() != f0:
             notes.append("global tables changed by the target call")
+        run = cutfind.run_real
+        sess = payload.get("session")
+        if sess:
+            # the caller's own objects, built once (equal to the ones the reference call `a` built for itself) and handed to every call
+            from qiskit_addon_cutting import DeviceConstraints
+            cons = DeviceConstraints(tgt["width"]) if "constraints" in sess["share"] else None
+            opt = cutfind._params(tgt)[0] if "params" in sess["share"] else None
+            run = lambda p: _run_with(p, cons, opt)   # noqa: E731
         for h in payload["history"]:
-            call_real(lambda p: cutfind.run_real(p), h, timeout=300)
+            call_real(run, h, timeout=300)
             if _fingerprint() != f0:
                 notes.append("global tables changed by a history call")
                 break
         _scramble(payload["scramble"])
         s0 = _rng_states()
-        b = call_real(lambda p: cutfind.run_real(p), tgt, timeout=300)
+        b = call_real(run, tgt, timeout=300)
         if _rng_states() != s0:
             notes.append("find_cuts consumed a global random generator")
         if tgt.get("reuse_constraints"):
@@ -168,13 +259,18 @@ def run_real(kind, payload):
                 notes.append(f"an edited DeviceConstraints object equal to DeviceConstraints({tgt['width']}) gives {json.dumps(a)[:120]}, "
                              f"a fresh one {json.dumps(a2)[:120]}")
         if a != b:
-            notes.append(f"result changed after the history: {json.dumps(a)[:150]} -> {json.dumps(b)[:150]}")
+            how = ""
+            if sess:
+                names = {"constraints": "DeviceConstraints", "params": "OptimizationParameters"}
+                how = (f" (the session handed one {' and one '.join(names[s] for s in sess['share'])} object to every call; built as "
+                       f"DeviceConstraints({tgt['width']}), it now reports a width of {cons.get_qpu_width() if cons is not None else tgt['width']})")
+            notes.append(f"result changed after the history{how}: {json.dumps(a)[:150]} -> {json.dumps(b)[:150]}{_diff(a, b)}")
         if payload.get("fresh"):
             for hs in ((None,) if not payload.get("hashseeds") else (1, 3)):
                 c = _fresh(tgt, hs)
                 if c != a:
                     notes.append(f"fresh interpreter{'' if hs is None else ' (PYTHONHASHSEED=%d)' % hs} gives {json.dumps(c)[:150]}, "
-                                 f"this process {json.dumps(a)[:150]}")
+                                 f"this process {json.dumps(a)[:150]}{_diff(c, a)}")
                     break
         if "error" in a:
             return dict(a, notes=notes)
